@@ -218,34 +218,44 @@ def correct_table(n):
 
 
 def chunks_of_file(path, correct_bytes, n):
-    """file content -> list of chunk ids (row index if the row equals the correct row,
-    0 for a hole of NULs, -2 for anything else)"""
+    """file content -> list of chunk ids.  A chunk is one write() of the reference file (one line: a
+    table row, or a header line if the code writes one).  id = line index + 1 if the line equals the
+    reference line, 0 for a hole of NULs, -2 for anything else.  Lines need not have a fixed width."""
     if not os.path.exists(path):
         return None
     b = open(path, "rb").read()
+    ref = correct_bytes.splitlines(keepends=True)
     out = []
-    for i in range(0, len(b), ROW):
-        row = b[i:i + ROW]
-        k = i // ROW
-        if k < n and row == correct_bytes[k * ROW:(k + 1) * ROW]:
+    pos = 0
+    k = 0
+    while pos < len(b):
+        want = ref[k] if k < len(ref) else None
+        if want is not None and b[pos:pos + len(want)] == want:
             out.append(k + 1)
-        elif row.strip(b"\0") == b"":
+            pos += len(want)
+        elif want is not None and b[pos:pos + len(want)].strip(b"\0") == b"" and len(b[pos:pos + len(want)]) == len(want):
             out.append(0)
+            pos += len(want)
         else:
             out.append(-2)
+            nl = b.find(b"\n", pos)
+            pos = len(b) if nl < 0 else nl + 1
+        k += 1
     return out
 
 
-def chunks_of_table(arr, correct):
+def chunks_of_table(arr, correct, header_chunks=0):
+    """in-memory table -> chunk ids as Cache.tla counts them (header chunks first)"""
     if arr is None:
         return None
+    head = list(range(1, header_chunks + 1))
     if np.size(arr) == 0:
-        return []
+        return head if header_chunks else []
     arr = np.atleast_2d(arr)
-    out = []
+    out = list(head)
     for k in range(arr.shape[0]):
         if arr.ndim == 2 and arr.shape[1] == 2 and k < correct.shape[0] and np.array_equal(arr[k], correct[k]):
-            out.append(k + 1)
+            out.append(header_chunks + k + 1)
         else:
             out.append(-2)
     return out
